@@ -4,10 +4,11 @@ from harness.common.rng import Rng
 from harness.common import sim
 
 PROP = "C52"
-LEAN_MODULES = ["LunaVerif.Props.C52"]
+LEAN_MODULES = ["LunaVerif.Props.C52", "LunaVerif.Lemmas.I2cWrite"]
 DRIVER = "Driver/C52.lean"
 REQUIRED_THEOREMS = ["sda_changes_under_scl_high_only_for_start_stop", "busy_low_iff_accepting",
-                     "stretch_holds_timer", "read_samples_when_scl_high", "write_msb_first_and_ack_partial"]
+                     "stretch_holds_timer", "read_samples_when_scl_high", "write_msb_first_and_ack_partial",
+                     "sda_released_for_target_bits"]
 RULE = ("cases = (period_cyc, clk_stretch) x behaviour; cooperative: random operation sequences (start, repeated "
         "start, write, read, stop) issued when busy is low, behavioural target on open-drain wired-AND lines (ACK/NAK, "
         "read data MSB first set up at a random point of the low phase, random clock stretching after falling edges "
